@@ -17,7 +17,7 @@ LEN_EST = "append::rolling_file::LogFile::<'a>::len_estimate"
 
 
 class OnceWalk(sgr.Walk):
-    def __init__(self, p, fn, claimed, big_enough, min_fields, outer=None, depth=0):
+    def __init__(self, p, fn, claimed, big_enough, min_fields, outer=None, depth=0, completed=False):
         sgr.Walk.__init__(self, fn, {"text": False, "background": False, "intense": None})
         self.p = p
         self.claimed = claimed
@@ -25,6 +25,7 @@ class OnceWalk(sgr.Walk):
         self.min_fields = set(min_fields)
         self.outer = outer
         self.depth = depth
+        self.completed = completed if outer is None else outer.completed
         self.style_local = -1
         self.consts = []
         self.once_calls = 0
@@ -134,6 +135,20 @@ class OnceWalk(sgr.Walk):
             return ("unit",)
         if decl == LEN_EST:
             return ("symval", "len")
+        if decl == "std::sync::once::Once::is_completed":
+            # a call that is going to run the Once cannot find it completed; any other call may or may not (both are followed)
+            return ("int", 0 if self.claimed else int(self.completed))
+        if name in ("unwrap_or", "unwrap_or_default", "is_some", "is_none") and "Option" in decl and t.get("args"):
+            a0 = self.operand(t["args"][0])
+            if isinstance(a0, tuple) and a0 and a0[0] == "agg" and a0[2] in ("Some", "None"):
+                if name == "is_some":
+                    return ("int", int(a0[2] == "Some"))
+                if name == "is_none":
+                    return ("int", int(a0[2] == "None"))
+                if a0[2] == "Some":
+                    return a0[1][0]
+                return self.operand(t["args"][1]) if name == "unwrap_or" else ("int", 0)
+            raise Giveup("%s of %r" % (name, a0))
         if name in ("deref", "as_ref", "borrow", "clone") and t.get("args"):
             return self.operand(t["args"][0])
         resolved = t.get("resolved") if t.get("resolved_local") else None
@@ -220,14 +235,22 @@ def evaluate(p, fn, min_fields):
     out = {}
     for claimed in (False, True):
         for big in (False, True):
-            w = OnceWalk(p, fn, claimed, big, min_fields)
-            w.once_total = 0
-            w.env[1] = ("symobj", "self", ())
-            w.env[2] = ("symobj", "file", ())
-            w.run_fn()
-            v = w.env.get(0)
-            res = None
-            if isinstance(v, tuple) and v and v[0] == "agg" and v[2] == "Ok" and v[1] and isinstance(v[1][0], tuple) and v[1][0][0] == "int":
-                res = bool(v[1][0][1])
-            out[(claimed, big)] = (res, w.once_total, v)
+            # a call that does not run the Once may find it completed already, or still running in another thread
+            for completed in ((False,) if claimed else (False, True)):
+                w = OnceWalk(p, fn, claimed, big, min_fields, completed=completed)
+                w.once_total = 0
+                w.env[1] = ("symobj", "self", ())
+                w.env[2] = ("symobj", "file", ())
+                w.run_fn()
+                v = w.env.get(0)
+                res = None
+                if isinstance(v, tuple) and v and v[0] == "agg" and v[2] == "Ok" and v[1] and isinstance(v[1][0], tuple) and v[1][0][0] == "int":
+                    res = bool(v[1][0][1])
+                key = (claimed, big)
+                if key in out and out[key][0] != res:
+                    res = None      # the answer depends on whether the Once had completed: not a function of (claimed, big)
+                    v = ("depends-on-is_completed", out[key][2], v)
+                n = w.once_total if key not in out else max(out[key][1], w.once_total)
+                lo = w.once_total if key not in out else min(out[key][3], w.once_total)
+                out[key] = (res, n, v, lo)
     return out
